@@ -53,6 +53,9 @@ def families(tier):
                      [Rule("a ~", [Rule("c *")])],
                      [Rule("a 9", ignore=True), Rule("a *")],
                      [Rule("a *", [Rule("c 9", ignore=True), Rule("c *")])]])
+    # F14: %rewrite %global as in the shipped rulebooks (xpl / route-policy bodies): rows nest inside rewritten rows
+    add("F14-rewrite-global-nested", [[Rule("a *", [Rule("c *", rewrite=True, glob=True)])],
+                                      [Rule("a", [Rule("~", rewrite=True, glob=True)])]])
     if tier == "thorough":
         # F6: depth 3
         add("F6-depth3", [[Rule("a *", [Rule("c *", [Rule(shape(s, "e"), **f)])])]
